@@ -240,33 +240,19 @@ Proof. intros. split; [apply remove_impl_spec|apply remove_at_impl_spec]. Qed.
 Print Assumptions C10_remove_refines.
 
 (** All calls except sort / set / the four set functions: the IMPL-MODEL outcome is the SPEC
-    outcome for ALL arguments outside the known class.
+    outcome for ALL arguments (no known class any more: the std.sum / std.avg and unstable-sort
+    findings are fixed in the repository, b7c8f41 and 3588344).
     Full statement (not proved):
-      forall c, judge c = JSpec -> known_sum_negzero c = false -> impl_call c = spec_call c.
+      forall c, judge c = JSpec -> impl_call c = spec_call c.
     Missing: for std.sort/std.set the comparator path (keys that contain an array / null /
     boolean / object; C10_sort_refines_classified covers every other call, C10_sort_fallible_path
     the path itself under total comparability), and for the set functions the instantiation of
     C10_setops_refine with [cmp_val] on array keys, which needs the order laws of [cmp_val] on
     nested arrays (C10_setops_number_keys is the instance for number keys). *)
 Theorem C10_calls_refine_partial :
-  forall c, simple_call c = true -> known_sum_negzero c = false -> impl_call c = spec_call c.
+  forall c, simple_call c = true -> impl_call c = spec_call c.
 Proof. exact simple_calls_refine. Qed.
 Print Assumptions C10_calls_refine_partial.
-
-(** finding C10-sum-empty-negzero: on the known class the faithful model leaves the definition *)
-Theorem C10_sum_refuted :
-  exists c, known_sum_negzero c = true /\ judge c = JSpec /\ impl_call c <> spec_call c.
-Proof. exact sum_refuted. Qed.
-Print Assumptions C10_sum_refuted.
-
-(** finding C10-sort-identity-unstable-signed-zero: "an unstable sort is unobservable on identity
-    keys" is false — two different sorted permutations of one input exist *)
-Theorem C10_unstable_sort_observable :
-  exists l l' : list val,
-    Permutation l l' /\ StronglySorted (fun a b => leb_val a b = true) l' /\
-    sort_spec None l = Some l /\ l' <> l.
-Proof. exact unstable_sort_observable. Qed.
-Print Assumptions C10_unstable_sort_observable.
 
 (** fold laws *)
 Theorem C10_fold_laws :
